@@ -122,6 +122,35 @@ Definition add_example_stmt : Prop :=
 Lemma add_example : add_example_stmt.
 Proof. vm_compute. repeat split; reflexivity. Qed.
 
+(* unset <obj 0>.http.H*;  with ha = "x", hb = "y" on object 0 and ha = "z" on object 1: both headers of
+   object 0 go (the prefix is compared case-folded), object 1 keeps its own; with the prefix "hA" only ha goes *)
+Definition σ_wild : state :=
+  {| heap := [VInt 5 false]; locals := [(0%N, 0%nat)]; globals := []; groups := [];
+     hdrs := [((0%N, 0%N), [Byte.x78]); ((0%N, 1%N), [Byte.x79]); ((1%N, 0%N), [Byte.x7a])];
+     logs := []; depth := 0; trace := [] |}.
+Definition unset_wildcard_example_stmt : Prop :=
+  match exec repaired std_ops [] 20 false (SUnsetWild 0 [Byte.x48]) σ_wild,
+        exec repaired std_ops [] 20 false (SUnsetWild 0 [Byte.x68; Byte.x41]) σ_wild with
+  | OK (ONorm, σ1), OK (ONorm, σ2) =>
+      read σ1 (NHeader 0 0) = Some (VStr [] true false) /\ read σ1 (NHeader 0 1) = Some (VStr [] true false) /\
+      read σ1 (NHeader 1 0) = Some (VStr [Byte.x7a] false false) /\ read σ1 (NLocal 0) = Some (VInt 5 false) /\
+      read σ2 (NHeader 0 0) = Some (VStr [] true false) /\ read σ2 (NHeader 0 1) = Some (VStr [Byte.x79] false false)
+  | _, _ => False
+  end.
+Lemma unset_wildcard_example : unset_wildcard_example_stmt.
+Proof. vm_compute. repeat split; reflexivity. Qed.
+
+(* synthetic "g";  with the response body as ctx cell 1: it becomes "g"; ctx cell 0 and var.v0 keep their values *)
+Definition synthetic_example_stmt : Prop :=
+  match exec repaired std_ops [] 20 false (SSynthetic 1 (ELit (VStr [Byte.x67] false true))) σ_err with
+  | OK (ONorm, σ') =>
+      read σ' (NGlobal 1) = Some (VStr [Byte.x67] false false) /\
+      read σ' (NGlobal 0) = Some (VInt 500 false) /\ read σ' (NLocal 0) = Some (VInt 5 false)
+  | _ => False
+  end.
+Lemma synthetic_example : synthetic_example_stmt.
+Proof. vm_compute. repeat split; reflexivity. Qed.
+
 (* BEFORE the repair of unary minus: evaluating -var.v0 changes var.v0 *)
 Lemma neg_in_place_refutes :
   exists n m e σ l σ',
@@ -143,3 +172,36 @@ Proof.
   split; [apply wf_ab|]. split; [vm_compute; reflexivity|].
   exists 0%N. vm_compute. discriminate.
 Qed.
+
+(* ---- opaque values: TIME / IP / BACKEND / ACL are cells whose content the model copies and never inspects ----
+   declare local var.v0 BACKEND (= "F_a"); declare local var.v1 BACKEND (= "F_b");
+   sub f1(BACKEND var.v10) { set var.v10 = var.v11; }  with var.v11 a BACKEND local of the callee ("F_c") *)
+Definition σ_op : state :=
+  {| heap := [VOpaque 2 [Byte.x61]; VOpaque 2 [Byte.x62]]; locals := [(1%N, 1%nat); (0%N, 0%nat)]; globals := [];
+     groups := []; hdrs := []; logs := []; depth := 0; trace := [] |}.
+Definition sub_fop : sub :=
+  {| s_params := [(10%N, TOpaque 2)]; s_ret := None;
+     s_body := [SDeclare 11 (TOpaque 2) None; SSet (NLocal 10) AEq (EVar (NLocal 11))] |}.
+Definition prog_fop : program := [(1%N, sub_fop)].
+
+(* set var.v1 = var.v0;  copies the BACKEND value: var.v1 reads "a", var.v0 still "a", two distinct cells;
+   call f1(var.v0);  the callee overwrites its parameter: var.v0 still reads "a" *)
+Definition opaque_example_stmt : Prop :=
+  match exec repaired std_ops prog_fop 10 false (SSet (NLocal 1) AEq (EVar (NLocal 0))) σ_op,
+        exec repaired std_ops prog_fop 10 false (SCall 1 [EVar (NLocal 0)]) σ_op with
+  | OK (ONorm, σ1), OK (ONorm, σ2) =>
+      read σ1 (NLocal 1) = Some (VOpaque 2 [Byte.x61]) /\ read σ1 (NLocal 0) = Some (VOpaque 2 [Byte.x61]) /\
+      loc_of σ1 (NLocal 0) <> loc_of σ1 (NLocal 1) /\
+      read σ2 (NLocal 0) = Some (VOpaque 2 [Byte.x61]) /\ read σ2 (NLocal 1) = Some (VOpaque 2 [Byte.x62])
+  | _, _ => False
+  end.
+Lemma opaque_example : opaque_example_stmt.
+Proof. vm_compute. repeat split; try reflexivity. discriminate. Qed.
+
+(* BEFORE the repair of parameter passing the same call changes the caller's BACKEND local (no conversion is
+   needed for an opaque argument, so the callee got the caller's own cell) *)
+Lemma param_alias_opaque_refutes :
+  exists r σ', call original std_ops prog_fop 10 sub_fop [0%nat] σ_op = OK (r, σ') /\
+               read σ' (NLocal 0) <> read σ_op (NLocal 0).
+Proof. eexists _, _. split; [vm_compute; reflexivity|]. vm_compute. discriminate. Qed.
+
